@@ -455,7 +455,7 @@ def build_unit(repo: Path, template: Path, checks=False, defs=None):
             item = item[1:-1]
         name = kv["name"]
         occ = int(kv.get("occurrence", "1"))
-        sig, specs, loops, proofs, repls, prologue, loopends, repls_re, insts, epilogue, attrs = None, [], {}, [], [], [], {}, [], [], [], []
+        sig, specs, loops, proofs, repls, prologue, loopends, repls_re, insts, epilogue, attrs, sigdrops = None, [], {}, [], [], [], {}, [], [], [], [], []
         i += 1
         while not lines[i].strip().startswith("//@END"):
             l = lines[i].strip()
@@ -466,7 +466,7 @@ def build_unit(repo: Path, template: Path, checks=False, defs=None):
                     i += 1
                     continue
                 l = mq.group(1) + mq.group(3)
-            if l.startswith("//@SIG"):
+            if l.startswith("//@SIG") and not l.startswith("//@SIGDROP"):
                 sig = l[len("//@SIG"):].strip()
             elif l.startswith("//@SPEC"):
                 specs.append(l[len("//@SPEC"):].rstrip())
@@ -475,6 +475,9 @@ def build_unit(repo: Path, template: Path, checks=False, defs=None):
                 loops.setdefault(int(m.group(1)), []).append(m.group(2))
             elif l.startswith("//@PROLOGUE"):
                 prologue.append(l[len("//@PROLOGUE"):].strip())
+            elif l.startswith("//@SIGDROP"):
+                # text dropped from the real signature before it is compared with //@SIG (e.g. a marker type parameter)
+                sigdrops.append(re.match(r"//@SIGDROP\s+<<(.*?)>>", l).group(1))
             elif l.startswith("//@ATTR"):
                 attrs.append(l[len("//@ATTR"):].strip())
             elif l.startswith("//@EPILOGUE"):
@@ -493,7 +496,7 @@ def build_unit(repo: Path, template: Path, checks=False, defs=None):
                 m = re.match(r"//@INST\s+<<(.*?)>>\s*=>\s*<<(.*?)>>", l)
                 insts.append((m.group(1), m.group(2)))
             elif l.startswith("//@REPLACE"):
-                m = re.match(r"//@REPLACE\s+<<(.*?)>>\s*=>\s*<<(.*?)>>", l)
+                m = re.match(r"//@REPLACE\s+\[\[(.*?)\]\]\s*=>\s*\[\[(.*?)\]\]", l) or re.match(r"//@REPLACE\s+<<(.*?)>>\s*=>\s*<<(.*?)>>", l)
                 repls.append((m.group(1), m.group(2)))
             elif l.startswith("//@"):
                 raise ExtractError(f"unknown directive: {l}")
@@ -504,9 +507,13 @@ def build_unit(repo: Path, template: Path, checks=False, defs=None):
             raise ExtractError(f"lost anchor: {file} does not exist")
         src = src_path.read_text()
         real_sig, body = find_fn(src, item, name, occ)
+        log = []
+        for sd in sigdrops:
+            if sd in real_sig:
+                real_sig = real_sig.replace(sd, "")
+                log.append(f"signature: `{sd}` dropped (parameter not modelled)")
         if norm_params(real_sig) != norm_params(sig):
             raise ExtractError(f"signature drift for {file}::{name}: real `{norm_params(real_sig)}` vs contract `{norm_params(sig)}`")
-        log = []
         body = global_rewrites(body, checks, log)
         for old, new in insts:
             if old in body:
